@@ -426,6 +426,7 @@ def check_size(ctx: Ctx, path, name, mode, size, fit):
     # -- cursor-agrees on the initial state
     root, leaves = G.build(path)
     cursor_agrees(ctx, V, root, size, "initial")
+    warm_walk(ctx, V, path, name, size, geo, leaves)
     cols, rows = canv.cols(), canv.rows()
     by = {lf.name: lf for lf in leaves}
     for Y in range(rows):
@@ -505,6 +506,44 @@ def check_size(ctx: Ctx, path, name, mode, size, fit):
                     V("cursor-agrees", f"{name} {size}: after move to ({X},{Y}) get_cursor_coords {cc} != rendered cursor {rc}", cell=(X, Y))
 
 
+def warm_walk(ctx: Ctx, V, path, name, size, geo, leaves0):
+    """one live tree, as in a running application: the cursor is moved from leaf to leaf, every canvas ever rendered stays alive and the canvas
+    cache is never emptied; after every move the reported and the rendered cursor must agree"""
+    root, leaves = G.build(path)
+    if not G.protocol or not hasattr(root, "get_cursor_coords"):
+        return
+    held = []
+    urwid.CanvasCache.clear()
+    try:
+        held.append(root.render(size, True))
+    except Exception:
+        return
+    targets = []
+    for lf in leaves0:
+        if lf.name in geo and lf.rec.selectable():
+            x0, y0, w, h = geo[lf.name][:4]
+            targets.append((lf.name, x0, y0))
+            if h > 1:
+                targets.append((lf.name, x0, y0 + h - 1))
+    for lname, X, Y in targets + targets[::-1]:
+        ctx.count("evaluations")
+        try:
+            ok = root.move_cursor_to_coords(size, X, Y)
+            cc = root.get_cursor_coords(size)
+            canv = root.render(size, True)
+            rc = canv.cursor
+            held.append(canv)
+        except Exception as e:
+            V("event-raises", f"{name} {size}: live tree, move to ({X},{Y}) then get_cursor_coords/render raised {type(e).__name__}: {e}", site=exc_site(e), cell=(X, Y))
+            break
+        ctx.obs(name, size, "warm", X, Y, ok, cc, rc)
+        if cc != rc:
+            V("cursor-agrees", f"{name} {size}: live tree (earlier canvases alive, cache warm), after move_cursor_to_coords({X},{Y}) -> {ok!r}: "
+              f"get_cursor_coords {cc} != rendered cursor {rc}", "warm", cell=(X, Y))
+            break
+    urwid.CanvasCache.clear()
+
+
 def cursor_agrees(ctx, V, root, size, when):
     if not hasattr(root, "get_cursor_coords"):
         return
@@ -546,7 +585,8 @@ def run(tier, R):
         "row- and column-refusing probes, unselectable probe, recording multi-line Edit, Edit with a two-row caption, SelectableIcon), and every constructor over every "
         f"constructor for {3 if tier == 'quick' else 6} representative leaves; per tree and sizing mode the first {3 if tier == 'quick' else 6} sizes of the "
         "lattice (cols 1..14 x rows 1..11, ascending) that satisfy the verified fit precondition; every cell of the rendered area is pressed and, when it shows a "
-        "selectable leaf, made the target of move_cursor_to_coords. evaluations = presses + moves + cursor comparisons; non-trivial = distinct (tree, fitting size)",
+        "selectable leaf, made the target of move_cursor_to_coords (each on a freshly built tree); plus, per tree and size, one live tree whose cursor is walked over "
+        "every selectable leaf and back with all earlier canvases kept alive and the canvas cache warm, comparing the reported and the rendered cursor after every move. evaluations = presses + moves + cursor comparisons; non-trivial = distinct (tree, fitting size)",
         "exhaustive": True,
         "trees": len(paths),
         "fitting_sizes": int(R.ctx.counts.get("sizes", 0)),
